@@ -11,6 +11,8 @@ import NloptModel.Model.EschDriver
 import NloptModel.Model.CrsDriver
 import NloptModel.Model.NmDriver
 import NloptModel.Model.AuglagDriver
+import NloptModel.Model.MlslDriver
+import NloptModel.Model.MmaDriver
 import NloptModel.Model.IsresDriver
 /-! `nlopt_model <stream>`: line-protocol driver.  Reads operation lines on stdin, prints one
     canonical result line per operation.  Arithmetic is the hardware's (through `Float`). -/
@@ -94,6 +96,8 @@ def main (args : List String) : IO UInt32 := do
   | ["crs"] => loop stdin stdout ({} : CrsDrv.DrvSt) (CrsDrv.drvStep nativeArith); return 0
   | ["nm"] => loop stdin stdout ({} : NmDrv.DrvSt) (NmDrv.drvStep nativeArith); return 0
   | ["auglag"] => loop stdin stdout ({} : AuglagDrv.DrvSt) (AuglagDrv.drvStep nativeArith); return 0
+  | ["mlsl"] => loop stdin stdout ({} : MlslDrv.DrvSt) (MlslDrv.drvStep nativeArith); return 0
+  | ["mma"] => loop stdin stdout ({} : MmaDrv.DrvSt) (MmaDrv.drvStep nativeArith); return 0
   | ["esch"] => loop stdin stdout ({} : EschDrv.DrvSt) (EschDrv.drvStep nativeArith); return 0
   | ["isres"] => loop stdin stdout ({} : IsresDrv.DrvSt) (IsresDrv.drvStep nativeArith); return 0
   | _ => IO.eprintln "usage: nlopt_model <api|...>"; return 2
